@@ -98,3 +98,12 @@ func runORD(c *core.Ctx, rule, construct string, f *core.Func, err error) bool {
 	c.Unres(rule, construct, f.Decl.Pos(), "abstract evaluation failed: %v", err)
 	return false
 }
+
+func constString(p *core.Program, rel, name string) (string, bool) {
+	o := p.Object(rel, name)
+	cst, ok := o.(*types.Const)
+	if !ok || cst.Val().Kind() != constant.String {
+		return "", false
+	}
+	return constant.StringVal(cst.Val()), true
+}
